@@ -132,7 +132,12 @@ func genC14(r *Rand, tier string) *Case {
 	nrows := r.Range(0, 6)
 	cols, rows, want := c14Table(r, ncols, nrows, oids)
 	trailer := r.Chance(2, 3)
-	stream := pgwire.EncodeBinaryCopy(rows, trailer)
+	var ext []byte
+	if r.Chance(1, 6) {
+		ext = r.Bytes(r.PickInt(1, 2, 4, 19, 40)) // header extension area: must be skipped
+	}
+	stream := pgwire.EncodeBinaryCopyExt(rows, trailer, ext)
+	hdr := 19 + len(ext)
 	end := "eof"
 	variant := "seeded"
 	// row offsets for corruptions
@@ -140,7 +145,7 @@ func genC14(r *Rand, tier string) *Case {
 		variant = "corrupt"
 		// locate the start of row k
 		k := r.Intn(nrows)
-		off := 19
+		off := hdr
 		for i := 0; i < k; i++ {
 			off += 2
 			for _, f := range rows[i] {
@@ -186,8 +191,8 @@ func genC14(r *Rand, tier string) *Case {
 	case 2: // cuts inside the header
 		pieces = []int{r.Range(1, 18)}
 	case 3: // exactly at row boundaries
-		off := 19
-		pieces = append(pieces, 19)
+		off := hdr
+		pieces = append(pieces, hdr)
 		for _, row := range rows {
 			l := 2
 			for _, f := range row {
@@ -283,7 +288,7 @@ func checkC14(x *Exec, c *Case) ([]Violation, bool) {
 func init() {
 	register(&Prop{
 		ID: "C14", Level: "exploration", QuickS: 25, ThoroughS: 420,
-		Rule:       "binary COPY streams (signature, flags, extension length 0, tuples, optional -1 trailer) produced by the independent encoder for tables of 1-5 columns over the covered types and 0-6 rows with NULLs anywhere; the chunking into CopyData messages is the schedule: for three short table shapes (stream <= 48 bytes), with and without trailer, EVERY split into 2 and into 3 CopyData messages is enumerated, plus whole-stream and one-byte-per-message; seeded cases use 1-byte messages, cuts inside the header, cuts exactly at row boundaries, random pieces incl. empty CopyData messages, on top of transport segmentation; corruptions: field count +1 / -1 / 0x7FFF / negative other than the -1 trailer, value length beyond the stream, truncated last row, garbage after the trailer; the rows returned by BinaryCopyReader.Read are compared with the encoded rows (value by value through the canonical form), the end of data must be io.EOF, a corruption must be an error and never a row, and the query after the COPY must be served; non-trivial = the row reader was driven at least once; distinct = distinct case content hashes",
+		Rule:       "binary COPY streams (signature, flags, header extension area of 0-40 bytes, tuples, optional -1 trailer) produced by the independent encoder for tables of 1-5 columns over the covered types and 0-6 rows with NULLs anywhere; the chunking into CopyData messages is the schedule: for three short table shapes (stream <= 48 bytes), with and without trailer, EVERY split into 2 and into 3 CopyData messages is enumerated, plus whole-stream and one-byte-per-message; seeded cases use 1-byte messages, cuts inside the header, cuts exactly at row boundaries, random pieces incl. empty CopyData messages, on top of transport segmentation; corruptions: field count +1 / -1 / 0x7FFF / negative other than the -1 trailer, value length beyond the stream, truncated last row, garbage after the trailer; the rows returned by BinaryCopyReader.Read are compared with the encoded rows (value by value through the canonical form), the end of data must be io.EOF, a corruption must be an error and never a row, and the query after the COPY must be served; non-trivial = the row reader was driven at least once; distinct = distinct case content hashes",
 		Exhaustive: "all 2-piece and 3-piece splits of the encoded stream for 3 table shapes x {trailer, no trailer} (streams <= 48 bytes)",
 		Components: e1Components, Assumptions: commonAssumptions,
 		Fixed: c14Fixed, Gen: genC14, Check: checkC14,
